@@ -1,6 +1,9 @@
 #!/bin/bash
 # Coverage-guided libFuzzer campaign for C04 (decode_total) / C06 (volume_total): thorough tier only.
 # usage: ./fuzz_campaign.sh <C04|C06>
+# Built WITHOUT AddressSanitizer (-s none): the three crates forbid unsafe code, the only C code (libbz2) is not
+# instrumented by cargo-fuzz anyway, and ASan's mmap traffic on the multi-megabyte buffers these targets
+# allocate cut throughput 20-50x on this machine.  The oracle (no panic, allocation bound, shape) is inside the target.
 # Fixed work (-runs), 16 independent processes on copies of a generated seed corpus; every saved artifact
 # is re-judged by the harness oracle (nexrad-verif <ID> artifact <file>) before it may be reported.
 # exit 0 = nothing found; 1 = VIOLATION (confirmed by the harness); 2 = inconclusive
@@ -17,11 +20,11 @@ SEED=${VERIF_SEED:-0}
 export CARGO_NET_OFFLINE=true
 ROOT=$(pwd)
 WORKDIR="$ROOT/work/fuzz-$ID"
-BIN="$ROOT/work/fuzz-target/x86_64-unknown-linux-gnu/release/$TARGET"
+BIN="$ROOT/work/fuzz-target-nosan/x86_64-unknown-linux-gnu/release/$TARGET"
 HARNESS="$ROOT/work/target/release/nexrad-verif"
 T0=$(date +%s)
 
-if ! ( cd fuzz && cargo +nightly fuzz build --fuzz-dir "$ROOT/fuzz" --target-dir "$ROOT/work/fuzz-target" "$TARGET" ) > "$ROOT/work/fuzz-build-$ID.log" 2>&1; then
+if ! ( cd fuzz && cargo +nightly fuzz build -s none --fuzz-dir "$ROOT/fuzz" --target-dir "$ROOT/work/fuzz-target-nosan" "$TARGET" ) > "$ROOT/work/fuzz-build-$ID.log" 2>&1; then
   echo "INCONCLUSIVE property=$ID fuzz target failed to build:"; grep -E "^error" -A 8 "$ROOT/work/fuzz-build-$ID.log" | head -40; exit 2
 fi
 [ -x "$BIN" ] || { echo "INCONCLUSIVE property=$ID fuzz binary missing: $BIN"; exit 2; }
@@ -74,7 +77,7 @@ path = f"{root}/evidence/{pid}.json"
 ev = json.load(open(path))
 cov = ev["coverage"]
 cov["fuzz"] = {
-    "engine": "libFuzzer via cargo-fuzz (ASan build), %s independent processes, fixed work -runs, fresh seeded corpus" % procs,
+    "engine": "libFuzzer via cargo-fuzz (no sanitizer: safe Rust only; oracle inside the target), %s independent processes, fixed work -runs, fresh seeded corpus" % procs,
     "planned_executions": int(planned), "executions": int(execs),
     "merged_corpus_files": cls["files"], "merged_corpus_distinct_nontrivial": cls["distinct_nontrivial"],
     "corpus_samples": cls["samples"],
